@@ -18,7 +18,7 @@ import (
 	"encoding/hex"
 	"fmt"
 	"sort"
-	"strings"
+	"strconv"
 	"sync"
 	"time"
 
@@ -444,14 +444,17 @@ type view struct {
 }
 
 func nameStr(n enc.Name) string {
-	var sb strings.Builder
-	for _, c := range n {
-		fmt.Fprintf(&sb, "/%d=%x", uint64(c.Typ), c.Val)
-	}
-	if sb.Len() == 0 {
+	if len(n) == 0 {
 		return "/"
 	}
-	return sb.String()
+	var out []byte
+	for _, c := range n {
+		out = append(out, '/')
+		out = strconv.AppendUint(out, uint64(c.Typ), 10)
+		out = append(out, '=')
+		out = hex.AppendEncode(out, c.Val)
+	}
+	return string(out)
 }
 
 func short(s string) string {
@@ -656,17 +659,20 @@ type refPacket struct {
 }
 
 func nodeName(buf []byte, n *tw.Node) (string, error) {
-	var sb strings.Builder
+	if len(n.Children) == 0 {
+		return "/", nil
+	}
+	var out []byte
 	for _, c := range n.Children {
 		if c.Type == 0 {
 			return "", fmt.Errorf("name component with type 0 at offset %d", c.Off)
 		}
-		fmt.Fprintf(&sb, "/%d=%x", c.Type, c.Value(buf))
+		out = append(out, '/')
+		out = strconv.AppendUint(out, c.Type, 10)
+		out = append(out, '=')
+		out = hex.AppendEncode(out, c.Value(buf))
 	}
-	if sb.Len() == 0 {
-		return "/", nil
-	}
-	return sb.String(), nil
+	return string(out), nil
 }
 
 func nni(buf []byte, n *tw.Node) (uint64, error) {
@@ -989,7 +995,10 @@ type decoded struct {
 }
 
 // decode runs one of the API decoders (how = "ReadInterest/ReadData" | "ReadPacket").
-func decode(kind, how string, r enc.ParseReader) (d decoded) {
+func decode(kind, how string, r enc.ParseReader) (d decoded) { return decodeOpt(kind, how, r, true) }
+
+// decodeOpt with withView=false skips building the comparable view (tamper loop).
+func decodeOpt(kind, how string, r enc.ParseReader, withView bool) (d decoded) {
 	defer func() {
 		if rec := recover(); rec != nil {
 			d = decoded{err: fmt.Errorf("panic: %v", rec), panicked: true}
@@ -1017,13 +1026,19 @@ func decode(kind, how string, r enc.ParseReader) (d decoded) {
 		if err != nil {
 			return decoded{err: err}
 		}
-		d.v, d.sig, cov = viewOfInterest(i), i.Signature(), c
+		d.sig, cov = i.Signature(), c
+		if withView {
+			d.v = viewOfInterest(i)
+		}
 	} else {
 		dd, c, err := sp.ReadData(r)
 		if err != nil {
 			return decoded{err: err}
 		}
-		d.v, d.sig, cov = viewOfData(dd), dd.Signature(), c
+		d.sig, cov = dd.Signature(), c
+		if withView {
+			d.v = viewOfData(dd)
+		}
 	}
 	d.ncov = len(cov)
 	d.covered = append([]byte{}, cov.Join()...)
